@@ -5,7 +5,7 @@ import KG.Base.Json
 Mirrors, function by function,
 * `staging/src/github.com/kubewharf/apiserver-runtime/pkg/registry/strategy.go`
   (`HasObjectMetaSpecStatus`, `DefaultRESTStrategy.PrepareForCreate/PrepareForUpdate`, `specEqual`,
-  `DefaultStatusRESTStrategy.PrepareForUpdate`),
+  `semanticEqual`, `DefaultStatusRESTStrategy.PrepareForUpdate`),
 * `staging/src/github.com/kubewharf/apiserver-runtime/pkg/registry/rest.go` (`NewResourceREST`: which update
   strategy each endpoint gets, and when a status subresource is served at all),
 * `k8s.io/apiserver/pkg/registry/rest` `BeforeCreate` / `BeforeUpdate` (the kubewharf fork in the module cache;
@@ -13,9 +13,11 @@ Mirrors, function by function,
   one before the strategy runs; the two generation checks of `ValidateObjectMetaAccessor(Update)` afterwards.
 
 An object is cut into the field groups the strategies distinguish: labels, annotations, generation, the rest of
-the metadata, spec, status. `L A M S T` are abstract; `=` on them is Go's `reflect.DeepEqual` on the decoded
-values (so `nil` and an empty map are DIFFERENT values of `A`; see `KG.Spec.Strategy` for the coarser,
-"as the API renders it" view). `generation` is an `int64` (`Int` with the explicit wrap `toI64`).
+the metadata, spec, status. `L A M S T` are abstract types of decoded Go values (`nil` and an empty map are
+DIFFERENT values of `A`). The only comparison the code makes is `semanticEqual`
+(= `apiequality.Semantic.DeepEqual`: an empty map/list/byte string equals a missing one), modelled by `Sem`:
+two values are `semanticEqual` iff their `Sem` images are equal — the image is the value as the API renders
+it. `generation` is an `int64` (`Int` with the explicit wrap `toI64`).
 -/
 namespace KG.Model.Strategy
 
@@ -44,8 +46,14 @@ instance (x : Int) : Decidable (isI64 x) := by unfold isI64; infer_instance
 
 deriving instance DecidableEq for Except
 
+/-- `semanticEqual(a, b)` ⇔ `sem a = sem b`: the rendering under which `apiequality.Semantic.DeepEqual`
+    compares specs and annotation maps (empty = missing; pointers, scalars, list elements exact). -/
+structure Sem (A S A' S' : Type) where
+  annotations : A → A'
+  spec : S → S'
+
 section
-variable {L A M S T : Type}
+variable {L A M S T A' S' : Type}
 
 /-- `DefaultRESTStrategy.PrepareForCreate`; `zero` is `reflect.New(statusType.Type).Elem()`. -/
 def prepareForCreate (subStatus : Bool) (sh : Shape) (zero : T) (obj : Obj L A M S T) : Obj L A M S T :=
@@ -54,16 +62,16 @@ def prepareForCreate (subStatus : Bool) (sh : Shape) (zero : T) (obj : Obj L A M
   -- if hasMeta { accessor.SetGeneration(1) }
   if sh.hasMeta then { obj with generation := 1 } else obj
 
-/-- `DefaultRESTStrategy.PrepareForUpdate` (with `specEqual` = DeepEqual of the Spec values). -/
-def prepareForUpdate [DecidableEq S] [DecidableEq A] (subStatus : Bool) (sh : Shape)
+/-- `DefaultRESTStrategy.PrepareForUpdate` (`specEqual` and the annotation test are both `semanticEqual`). -/
+def prepareForUpdate [DecidableEq S'] [DecidableEq A'] (sem : Sem A S A' S') (subStatus : Bool) (sh : Shape)
     (obj old : Obj L A M S T) : Obj L A M S T :=
   -- if !hasStatus { return }
   if !sh.hasStatus then obj else
   -- if s.subStatus && hasStatus { obj.Status = old.Status }
   let obj := if subStatus && sh.hasStatus then { obj with status := old.status } else obj
-  -- if hasMeta && hasSpec { if !specEqual || !DeepEqual(annotations) { SetGeneration(old.Generation + 1) } }
+  -- if hasMeta && hasSpec { if !specEqual(…) || !semanticEqual(annotations…) { SetGeneration(old.Generation + 1) } }
   if sh.hasMeta && sh.hasSpec then
-    if obj.spec ≠ old.spec ∨ obj.annotations ≠ old.annotations then
+    if sem.spec obj.spec ≠ sem.spec old.spec ∨ sem.annotations obj.annotations ≠ sem.annotations old.annotations then
       { obj with generation := toI64 (old.generation + 1) }
     else obj
   else obj
@@ -94,8 +102,9 @@ deriving DecidableEq, Repr
 
 /-- `store.UpdateStrategy` of the endpoint: the main store keeps `o.RESTStrategy`, the status store gets
     `DefaultStatusRESTStrategy{o.RESTStrategy}` whose own `PrepareForUpdate` shadows the embedded one. -/
-def updatePrepare [DecidableEq S] [DecidableEq A] (r : Reg) : Endpoint → Obj L A M S T → Obj L A M S T → Obj L A M S T
-  | .main => prepareForUpdate r.subStatus r.shape
+def updatePrepare [DecidableEq S'] [DecidableEq A'] (sem : Sem A S A' S') (r : Reg) :
+    Endpoint → Obj L A M S T → Obj L A M S T → Obj L A M S T
+  | .main => prepareForUpdate sem r.subStatus r.shape
   | .status => statusPrepareForUpdate r.shape
 
 /-- The parts of `BeforeCreate`/`BeforeUpdate` that touch only `otherMeta` (namespace, uid, timestamps, managed
@@ -125,14 +134,14 @@ def beforeCreate (r : Reg) (mr : MetaRules L A M S T) (zero : T) (obj : Obj L A 
   else .ok obj
 
 /-- `rest.BeforeUpdate(strategy, ctx, obj, old)` for the endpoint's update strategy. -/
-def beforeUpdate [DecidableEq S] [DecidableEq A] (r : Reg) (ep : Endpoint) (mr : MetaRules L A M S T)
-    (obj old : Obj L A M S T) : Except Reject (Obj L A M S T) :=
+def beforeUpdate [DecidableEq S'] [DecidableEq A'] (sem : Sem A S A' S') (r : Reg) (ep : Endpoint)
+    (mr : MetaRules L A M S T) (obj old : Obj L A M S T) : Except Reject (Obj L A M S T) :=
   if ep = .status ∧ !r.served then .error .notServed else
   if !r.shape.hasMeta then .error .internal else
   -- objectMeta.SetGeneration(oldMeta.GetGeneration())   "Ensure requests cannot update generation"
   let obj := { obj with generation := old.generation }
   -- strategy.PrepareForUpdate(ctx, obj, old)
-  let obj := updatePrepare r ep obj old
+  let obj := updatePrepare sem r ep obj old
   let obj := { obj with otherMeta := mr.fixUpdate obj.otherMeta old.otherMeta }
   -- validateCommonFields: generation non-negative; "must not be decremented"; everything else
   if obj.generation < 0 then .error .invalid
@@ -150,22 +159,22 @@ inductive Api (L A M S T : Type)
 /-- One request against the stored state (`none` = no such object). `Store.Update` of a missing object goes
     through `BeforeCreate` because `AllowCreateOnUpdate()` is true for both strategies (the embedded one answers
     for the status strategy); a rejected request leaves the state alone. -/
-def apiStep [DecidableEq S] [DecidableEq A] (r : Reg) (mr : MetaRules L A M S T) (zero : T) :
+def apiStep [DecidableEq S'] [DecidableEq A'] (sem : Sem A S A' S') (r : Reg) (mr : MetaRules L A M S T) (zero : T) :
     Option (Obj L A M S T) → Api L A M S T → Option (Obj L A M S T)
   | none, .create o => (beforeCreate r mr zero o).toOption
   | some cur, .create _ => some cur                      -- AlreadyExists
   | none, .update ep o =>
       if ep = .status ∧ !r.served then none else (beforeCreate r mr zero o).toOption
   | some cur, .update ep o =>
-      match beforeUpdate r ep mr o cur with
+      match beforeUpdate sem r ep mr o cur with
       | .ok o' => some o'
       | .error _ => some cur
   | _, .delete => none
 
-def apiRun [DecidableEq S] [DecidableEq A] (r : Reg) (mr : MetaRules L A M S T) (zero : T) :
+def apiRun [DecidableEq S'] [DecidableEq A'] (sem : Sem A S A' S') (r : Reg) (mr : MetaRules L A M S T) (zero : T) :
     Option (Obj L A M S T) → List (Api L A M S T) → Option (Obj L A M S T)
   | st, [] => st
-  | st, a :: as => apiRun r mr zero (apiStep r mr zero st a) as
+  | st, a :: as => apiRun sem r mr zero (apiStep sem r mr zero st a) as
 
 end
 end KG.Model.Strategy
